@@ -212,7 +212,7 @@ Proof.
   remember (first_inv d cid callee_id callee r opts) as fi eqn:Efi.
   assert (Hfc : inv_call fi = cid) by (rewrite Efi; reflexivity).
   assert (Hfe : inv_callee fi = fst ikey) by (rewrite Efi, Eik; reflexivity).
-  assert (Hft : inv_timer fi = if local_timer (opt_int64 opts "timeout") callee r then Some (d_timergen d + 1) else None)
+  assert (Hft : inv_timer fi = if local_timer (opt_int64 opts "timeout") callee callee_id r then Some (d_timergen d + 1) else None)
     by (rewrite Efi; reflexivity).
   assert (Hnc : cget (d_calls d) cid = None).
   { destruct (cget (d_calls d) cid) eqn:Ec; [|reflexivity]. destruct (C _ _ Ec) as (_ & Hn). congruence. }
@@ -229,7 +229,7 @@ Proof.
     + inversion H. split; [reflexivity | discriminate].
     + eauto.
   - intros c k. rewrite !cget_cset. destruct (pair_eqb_spec c cid) as [->|Hc]; intros H; [discriminate | eauto].
-  - intros t dl c. destruct (local_timer (opt_int64 opts "timeout") callee r) eqn:Hlt.
+  - intros t dl c. destruct (local_timer (opt_int64 opts "timeout") callee callee_id r) eqn:Hlt.
     + rewrite nget_nset. destruct (N.eqb_spec t (d_timergen d + 1)) as [->|Hne].
       * intros H; inversion H; subst dl c. split; [lia|]. exists ikey, fi.
         rewrite !cget_cset, !pair_eqb_refl. rewrite Hft. auto.
@@ -261,7 +261,7 @@ Proof.
   split.
   2:{ constructor; rewrite ?chs_calls, ?chs_invs; [auto|]. intros k v. rewrite cget_cset.
       destruct (pair_eqb_spec k ikey); congruence. }
-  destruct (local_timer (opt_int64 (inv_opts inv) "timeout") callee r) eqn:Hlt.
+  destruct (local_timer (opt_int64 (inv_opts inv) "timeout") callee (inv_callee inv) r) eqn:Hlt.
   2:{ unfold chunk_state. rewrite Hlt. eapply core_set_inv; eauto. }
   pose proof (chs_calls now d cid ikey inv callee r p) as E1.
   pose proof (chs_bycall now d cid ikey inv callee r p) as E2.
